@@ -40,7 +40,7 @@ SlotsE(e) ==
     [] OTHER -> {}
 SlotsSeq(ss) == UNION {SlotsS(ss[i]) : i \in 1..Len(ss)}
 SlotsS(x) ==
-  CASE x.k \in {"expr", "let", "const", "asg", "ret"} -> SlotsE(x.e)
+  CASE x.k \in {"expr", "let", "const", "lett", "asg", "ret"} -> SlotsE(x.e)
     [] x.k = "asgsub" -> SlotsE(x.i) \cup SlotsE(x.e)
     [] x.k = "wprop" -> SlotsE(x.o) \cup SlotsE(x.e)
     [] x.k \in {"mcall", "letc"} -> SlotsE(x.o) \cup SlotsArgs(x.args)
